@@ -58,12 +58,27 @@ EXPLANATION = (
     "sorted-burst-then-arrival-order; exactly once), and the order clause once more from the inputs alone: arrival times "
     "against the debounce / max window give the admissible burst lengths k, output must be stable_sort(arrival[:k]) ++ "
     "arrival[k:]. Besides the short scripts, every run feeds long initial bursts (999..10000 items and the neighbourhood of "
-    "every integral constant of the current iter_utils.py), replayed by the model up to 3000 items and once at 10000."
+    "every integral constant of the current iter_utils.py), replayed by the model up to 3000 items and once at 10000. "
+    "Extension: (1) a second merge invariant gives, for EVERY reachable state, the accounting of produced items (yielded / collected "
+    "awaiting yield / discarded by the stop-first break / in an unlooked-at finished task), the back-pressure bound (no source more "
+    "than one item ahead of the consumer) and the stop_on_first_completion clauses (normal return only by a real completion, no yield "
+    "after the stop, no retired slot). (2) The Debouncer's timer arithmetic is a second model with an explicit monotone clock "
+    "(WfModel/IterDebounce.lean; comparison operator, loop / extend_window / __init__ shapes and parameter defaults regenerated): "
+    "the signal is never set before min(u + debounce, start + max_window) for the start and every extend_window call u, is set at "
+    "exactly max(start, min(last + debounce, start + max_window)) plus the lateness of the loop task, the loop runs at most "
+    "(#extend_window + 2) iterations and is never stuck; with debounce >= max_window (the defaults) the window is fixed. Tie: every "
+    "real debounced_sorted_prefix run (all sizes, also the nested ones) and stand-alone Debouncer runs log __init__ / extend_window / "
+    "sleep(remaining) / signal.set() with their clock values; the compiled timed model replays them (ops c29deb_*: complete_time after each "
+    "extend, wake-up time of each sleep, firing time, iteration count, lateness 0) and an oracle independent of the model checks the firing time."
 )
 LEVEL_TEXT = "proof (Lean 4) over an executable LTS model + per-run trace validation against the real generators + direct monitors"
 ASSUMPTIONS = [
     "asyncio task scheduling, cancellation delivery and the finally-block of merge_generators (cancel/gather/aclose) are not modelled; they are exercised only by the real runs under the virtual-time loop",
-    "the debounce arithmetic (extend_window, max_window_seconds) is abstracted: the timer may fire at any point of the action list (a superset of the real timings)",
+    "in the Dsp model the debounce timer may fire at any point of the action list (a superset of the real timings); WHEN it fires is the separate timed model Deb "
+    "(C29_deb_*), tied to the same real runs; the two models are composed in prose, not by a Lean refinement: Dsp's `fire` = Deb's firing `loop`, Deb's `extend` = "
+    "Dsp's buffering branch (source fact bufferBranchHoldsBack)",
+    "Deb: clock values are integers (the check uses dyadic virtual-loop times scaled by 65536); lateness of the `_loop` task is a ghost quantity that the theorems "
+    "bound the firing time with; the virtual-time loop only exhibits lateness 0; floating-point rounding of real clock sums is not modelled",
     "keys are modelled as natural numbers with <=; Python compares arbitrary keys with <",
     "the flush marker is a module-private object recognised by identity (C29_source_shape: Gen.markerInBand = false), which the model renders as the Tok.val / Tok.marker split; a stream that deliberately yields that private object is outside the domain",
     "a consumer that abandons the generator early (aclose) is outside the property and not modelled",
@@ -85,7 +100,7 @@ UID_STRIDE = 100_000       # uid = source index * UID_STRIDE + position in the s
 LONG_SIZES = (999, 1000, 1001, 2500, 10000)   # burst lengths fed on every run, besides those around the source's constants
 MAX_LONG = 20_000          # longest burst derived from a constant of the source
 DERIVED_ITEMS = 40_000     # per round: total length of the bursts derived from constants (keeps the run time bounded)
-MAX_HANGS = 12             # runs that do not terminate before the case loop gives up (each costs MAX_STEPS iterations)
+MAX_HANGS = 6              # runs that do not terminate before the case loop gives up (each costs MAX_STEPS iterations)
 K_MAX_ITEMS = 3_000        # runs with more items go through the model only once per run (the compiled model is quadratic: appends)
 
 
